@@ -343,6 +343,7 @@ def run_property(prop, tier="quick", seed=0, only=None, jobs=None, verbose=False
     import random
 
     random.Random(seed).shuffle(shards)  # VERIF_SEED only permutes shard order
+    shards.sort(key=lambda d: -(len(d.get("shape", ())) * 10 + len(d.get("other", ())) * 5 + d.get("cost", 0)))  # long shards first
     cond_to, path_to = mod.TIMEOUTS.get(tier, (120, 20)) if hasattr(mod, "TIMEOUTS") else (120, 20)
 
     # --- known findings: which listed findings still reproduce natively?
@@ -492,9 +493,10 @@ def run_property(prop, tier="quick", seed=0, only=None, jobs=None, verbose=False
         print("HARNESS-ERROR shard=%s %s" % (n, why[:400]))
     seen = set()
     for n, clause, path in violations:
-        if path in seen:
+        if path in seen or (n, clause) in seen:
             continue
         seen.add(path)
+        seen.add((n, clause))
         print("VIOLATION property=%s replay=%s shard=%s clause=%s" % (prop, path, n, clause))
     if violations:
         return 1
